@@ -83,12 +83,13 @@ def rand_history(rng, nq, cap, prios, n, style):
     return ops
 
 
-def starvation_history(rng, nq, cap, prios, rounds):
-    """keep one local queue non-empty for > 61 pops while shared items wait"""
+def starvation_history(rng, nq, cap, prios, rounds, fill=None, pop_first=False):
+    """keep one local queue non-empty for > 61 pops while shared items wait; `fill` is the level the
+    busy queue is held at (the bound holds at every level, also above half and at capacity)"""
     ops = []
     item = 0
     q = rng.randint(1, nq)
-    for _ in range(min(cap, 3)):
+    for _ in range(min(cap, 3) if fill is None else fill):
         item += 1
         ops.append({"op": "lpush", "q": q, "item": item, "prio": rng.choice(prios)})
     for i in range(rounds):
@@ -96,8 +97,12 @@ def starvation_history(rng, nq, cap, prios, rounds):
             item += 1
             ops.append({"op": "gpush", "item": item, "prio": rng.choice(prios)})
         item += 1
-        ops.append({"op": "lpush", "q": q, "item": item, "prio": rng.choice(prios)})
-        ops.append({"op": "lpop", "q": q})
+        if pop_first:
+            ops.append({"op": "lpop", "q": q})
+            ops.append({"op": "lpush", "q": q, "item": item, "prio": rng.choice(prios)})
+        else:
+            ops.append({"op": "lpush", "q": q, "item": item, "prio": rng.choice(prios)})
+            ops.append({"op": "lpop", "q": q})
     return ops
 
 
@@ -177,6 +182,18 @@ def build_scenarios(pid, tier, wd, cov):
             prios = rng.choice([[0], [0, 1], [0, 1, 2]]) if ordered else [0]
             scs.append({"nq": nq, "cap": cap, "ordered": ordered, "src": "seeded-starvation",
                         "ops": starvation_history(rng, nq, cap, prios, rng.choice([70, 130, 200]))})
+    if pid == "C06":
+        # the busy queue held at every fill level (own generator: the draws above stay as they were)
+        rng2 = random.Random(seed() * 104729 + 6)
+        for cap in ([1, 2, 3, 4, 8, 16, 64] if thorough else [1, 2, 4, 8]):
+            for fill in sorted({1, max(1, cap // 2), min(cap, cap // 2 + 1), max(1, cap - 1), cap}):
+                for ordered in (False, True):
+                    for pop_first in (False, True):
+                        prios = rng2.choice([[0], [0, 1], [0, 1, 2]]) if ordered else [0]
+                        scs.append({"nq": rng2.choice([1, 2, 3]), "cap": cap, "ordered": ordered,
+                                    "src": "seeded-starvation-fill",
+                                    "ops": starvation_history(rng2, 1, cap, prios, rng2.choice([70, 130, 200]),
+                                                              fill=fill, pop_first=pop_first)})
     if pid in ("C06", "C04", "C05"):
         for i in range(300 if thorough else 80):
             nq = rng.choice([2, 3, 4])
